@@ -419,7 +419,7 @@ func (self *BinaryConv) handleUnsets(b *thrift.RequiresBitmap, desc *thrift.Stru
 		} else {
 			*out = json.EncodeArrayComma(*out)
 		}
-		*out = json.EncodeString(*out, field.Name())
+		*out = json.EncodeString(*out, field.Alias())
 		*out = json.EncodeObjectColon(*out)
 		return writeDefaultOrEmpty(field, out)
 	})
